@@ -1220,7 +1220,10 @@ func Execute(pool *Pool, spec SessionSpec, rng *mrand.Rand) *Session {
 		var runErr error
 		res := RunResult{}
 		res.Crashed, res.CrashMsg = core.Guard(func() {
-			runErr = gensign.Run(context.Background(), rs.Params, handlers, signer)
+			// a cancellable context with a deadline, as cmd/gensign passes
+			ctx, cancel := context.WithTimeout(context.Background(), 2*time.Minute)
+			defer cancel()
+			runErr = gensign.Run(ctx, rs.Params, handlers, signer)
 		})
 		res.Kind, res.KindName = "None", "success"
 		if runErr != nil {
